@@ -584,6 +584,13 @@ def _arctan2(y, x):
     return out
 
 
+def _count_nonzero(a, axis=None):
+    """np.count_nonzero: entries that are not zero (a symbol in general position is not zero)"""
+    if axis is not None:
+        raise Opaque('np.count_nonzero along an axis')
+    return sp.Integer(sum(0 if sp.sympify(e) == 0 else 1 for e in np.ravel(np.asarray(a, dtype=object))))
+
+
 def _fill_diagonal(a, val):
     """np.fill_diagonal: in place, one value for every diagonal entry or one value per entry"""
     if not is_arr(a) or a.ndim != 2:
@@ -682,7 +689,8 @@ NP_FUNCS = {
     'numpy.where': _np_where,
     'numpy.flatnonzero': lambda x: np.array([i for i, v in enumerate(np.ravel(np.asarray(x, dtype=object))) if _truth(v)], dtype=int),
     'numpy.nonzero': lambda x: _np_where(x),
-    'numpy.count_nonzero': lambda x, axis=None, **k: _reduce_axis(lambda a: sp.Integer(sum(1 for v in np.ravel(a) if _truth(v))), x, axis, **k),
+    # (an expression in general position is not zero: the same reading as for closeness tests on symbolic quantities)
+    'numpy.count_nonzero': lambda x, axis=None, **k: _reduce_axis(lambda a: sp.Integer(sum(1 for v in np.ravel(a) if (bool(v) if isinstance(v, (bool, np.bool_)) else sp.sympify(v) != 0))), x, axis, **k),
     'numpy.argmax': lambda x, axis=None, **k: _reduce_axis(lambda a: sp.Integer(max(range(a.size), key=lambda i: (sp.sympify(np.ravel(a)[i]), -i))), x, axis, **k),
     'numpy.argmin': lambda x, axis=None, **k: _reduce_axis(lambda a: sp.Integer(min(range(a.size), key=lambda i: (sp.sympify(np.ravel(a)[i]), i))), x, axis, **k),
     'numpy.prod': lambda x, axis=None, **k: _reduce_axis(lambda a: sp.Mul(*np.ravel(a)), x, axis, **k),
@@ -1266,6 +1274,11 @@ class SymEval:
         und = []                           # operands whose truth is not decided
         for i, x in enumerate(n.values):   # short circuit on decided operands, as Python does (the operand itself is the value)
             v = self.ev(x, p)
+            if is_arr(v) and v.size > 1 and i != last:
+                # `array or default`: the truth value of an array with more than one element is ambiguous
+                if self.try_depth > 0:
+                    raise _PyRaise('ValueError')
+                raise WouldRaise('ValueError: the truth value of an array with more than one element is ambiguous in %s' % norm(n))
             d = self._decided(v)
             if d is None:
                 und.append(v)
